@@ -302,8 +302,13 @@ def verify_function(world, contract, discharge=True):
         rep.undecided = 'engine recursion limit'
     if contract.cut_before and not rep.cut_hit and rep.undecided is None:
         rep.undecided = 'cut marker %r not found in source' % contract.cut_before
+    def only_hints(stmts):
+        return all(t.strip().startswith(('assert ', 'use_lemma(')) for t in stmts)
     for prefix in list(contract.abstract) + list(contract.ghost_in_body) + list(contract.ghost_before):
         if prefix not in rep.used_abstract and rep.undecided is None:
+            extra = contract.ghost_in_body.get(prefix) or contract.ghost_before.get(prefix)
+            if prefix not in contract.abstract and extra is not None and only_hints(extra):
+                continue        # a pure proof hint whose statement is gone: the proof simply has to do without it
             rep.undecided = 'abstraction anchor %r not found in source' % prefix
     if discharge and rep.undecided is None:
         discharge_all(rep.obligations)
